@@ -189,6 +189,13 @@ def BlockPostings.seek (c : Cfg) (p : BlockPostings) (target : Nat) : BlockPosti
   let p2 := p1.loadBlock c
   (p2, searchBlock c p2.docBuf target)
 
+/-- a program of seeks: the doc each one lands on (`doc_decoder.output[idx]`) -/
+def BlockPostings.seekAll (c : Cfg) : BlockPostings → List Nat → List Nat
+  | _, [] => []
+  | p, t :: ts =>
+    let r := p.seek c t
+    r.1.docBuf.getD r.2 c.T :: BlockPostings.seekAll c r.1 ts
+
 def BlockPostings.docs (p : BlockPostings) : List Nat := p.docBuf.take p.docLen
 def BlockPostings.freqs (p : BlockPostings) : List Nat := p.tfBuf.take p.tfLen
 
